@@ -99,6 +99,13 @@ class SimNet:
             return self._response(200, b'', {})
         if kind == 'net.redirect_loop':
             return self._response(302, b'', {'Location': 'http://sim.invalid' + url})
+        if kind == 'net.redirect_ok':
+            # one redirect to a mirror that serves the inventory
+            self.routes.setdefault('/mirror/objects.inv', {'data': data, 'fault': {'kind': 'none'}})
+            return self._response(301, b'', {'Location': 'http://sim.invalid/mirror/objects.inv'})
+        if kind == 'net.bad_content_encoding':
+            # the server claims gzip but sends something else: requests raises ContentDecodingError
+            return self._response(200, data, {'Content-Encoding': 'gzip', 'Content-Length': str(len(data))})
         if kind == 'net.reset_midway':
             return self._response(200, data, {'Content-Length': str(len(data))},
                                   stream=ShortReadStream(data, chunk=f.get('chunk', 0), die_at=f['at'], die_exc=f.get('exc', 'reset')))
@@ -251,7 +258,7 @@ def mangle_line(line: str, op: str, rng: Rng) -> str:
 
 TRANSFER_KINDS = ['net.drop', 'net.timeout', 'net.http_error', 'net.empty', 'net.truncate', 'net.bitflip', 'net.recompress',
                   'net.header', 'net.short_reads', 'net.reset_midway', 'net.short_content_length', 'net.gzip_transport',
-                  'net.garbage', 'inv.nonutf8']
+                  'net.garbage', 'inv.nonutf8', 'net.redirect_loop', 'net.bad_content_encoding', 'net.redirect_ok']
 
 
 def plan_transfer_fault(rng: Rng, data: bytes, kind: str) -> Dict[str, Any]:
